@@ -92,6 +92,7 @@ int main(void)
 #endif
     if (op == OP_INDEX_WRITE) ASSUME(idx < n0 - pre);
     if (op == OP_EMPLACE_POS_ALIAS) ASSUME(n0 - pre >= 1);   /* needs an element to alias */
+    if (op == OP_ERASE || op == OP_EMPLACE_POS || op == OP_EMPLACE_POS_ALIAS) ASSUME(idx <= cap);   /* the harness itself must not form a pointer beyond one-past-the-end of the storage */
     struct fv_view before, after, other; memset(&before, 0, sizeof before); memset(&after, 0, sizeof after); memset(&other, 0, sizeof other);
     struct ref r; r.cap = cap; r.n = n0 - pre; for (u32 i = 0; i < r.n; ++i) r.e[i] = init[i];
     struct ref r0 = r;
@@ -163,6 +164,7 @@ int main(void)
         ops[k] = basic[in_range(0, 6)];
 #endif
         idxs[k] = in_range(0, CAPMAX + 1); args[k] = (i32)in_range(0, 255);
+        ASSUME(idxs[k] <= cap);
         if (ops[k] == OP_INDEX_WRITE) ASSUME(idxs[k] < r.n);
         struct ref rb = r;
         raises[k] = ref_apply(&r, ops[k], args[k], 0, idxs[k]);
@@ -188,6 +190,7 @@ int main(void)
     u32 cap = in_range(0, CAPMAX), n0 = in_range(0, CAPMAX), pre = in_range(0, 1), idx = in_range(0, CAPMAX + 1);
     ASSUME(n0 <= cap && pre <= n0);
     u32 op = TOP;
+    if (op == 2 || op == 3 || op == 10) ASSUME(idx <= cap);   /* the harness itself must not form a pointer beyond one-past-the-end of the storage */
     u32 thr = in_range(0, THRMAX);             /* 0 = never throws, k = the k-th element copy/move of the operation throws */
     i64 live = -1, dbl = -1; u64 sb = 0, sa = 0; i32 unchanged = 0;
     u32 st = fv_tracked_step(cap, n0, pre, op, idx, thr, (u64*)&live, (u64*)&dbl, &sb, &sa, (u32*)&unchanged);
@@ -196,12 +199,14 @@ int main(void)
     CHECK(sa <= cap || op == 5 || op == 7, "C06: size never exceeds capacity");
     if (st == 1 && thr == 0 && (op == 0 || op == 1 || op == 2 || op == 3 || op == 8 || op == 9))
         CHECK(sa == sb && unchanged, "C06: a failed single-element operation leaves the container unchanged");
+    if (op == 10 || op == 11)
+        CHECK(st == 1 && sa == sb && unchanged, "C06: when constructing the new element throws, emplace / emplace_back fail and leave the container unchanged");
     WITNESS_AT(st == 1 && thr > 0, "an element copy/move threw in the middle of the operation");
-    WITNESS_AT(st == 0, "operation returns");
+    WITNESS_AT(st == 0 || op >= 10, "operation returns");
     OBS("tracked op=%u st=%u live=%ld dbl=%ld sb=%lu sa=%lu unch=%d\n", op, st, (long)live, (long)dbl, (unsigned long)sb, (unsigned long)sa, unchanged);
 #elif defined(MODE_UPTR)
     u32 cap = in_range(0, CAPMAX), n0 = in_range(0, CAPMAX), idx = in_range(0, CAPMAX + 1), op = UOP;
-    ASSUME(n0 <= cap);
+    ASSUME(n0 <= cap && idx <= cap);
     u64 sa = 0; i32 vals[4] = { 0, 0, 0, 0 };
     u32 st = fv_uptr_step(cap, n0, op, idx, &sa, (u32*)vals);
     struct ref r; r.cap = cap; r.n = n0; for (u32 i = 0; i < n0; ++i) r.e[i] = 20 + (i32)i;
